@@ -287,6 +287,8 @@ class Atoms:
         self.values = values
         self.enums = enums
         self.inliner = None       # set by eval_predicate: evaluates calls of small workspace predicates under the same assignment
+        self.free_values = {}     # text of a comparison on a quantity that is not an atom -> assumed truth value
+        self.free_seen = set()    # such comparisons met while evaluating (the caller enumerates them)
 
     def field_of(self, n):
         nm = leaf_name(strip(n)) or ""
@@ -327,6 +329,13 @@ class Atoms:
                 return "1" if res else "0"
         if n[0] == "k" and n[1] in ("true", "false"):
             return "1" if n[1] == "true" else "0"
+        if n[0] == "bin" and n[1] in ("Lt", "Le", "Gt", "Ge", "Eq", "Ne") and (strip(n[2])[0] == "k" or strip(n[3])[0] == "k"):
+            # a comparison of some other quantity with a constant: a free atom the caller may enumerate
+            key = show(n)
+            self.free_seen.add(key)
+            if key in self.free_values:
+                return "1" if self.free_values[key] else "0"
+            return None
         if n[0] == "call" and self.inliner is not None:
             return self.inliner(n)
         return None
